@@ -126,12 +126,25 @@ func (r *runner) bidOf(b *tmproto.CanonicalBlockID) int {
 	return int(b.Hash[0])
 }
 
+// The abstract timestamps 0, 1, 2 ... of the specification are made concrete as whole seconds plus a fraction that
+// depends on the timestamp: 0 ns, 100 ns, 0.64 s, 1.5 ms, 16 us, 0.3 s ... - the protobuf encodings of two different
+// timestamps differ in length as well as in content (a fraction of 0 is left out, the others take 1 to 5 bytes).
+var tsNanos = []time.Duration{0, 0, 100, 640000000, 1500000, 16000, 300000000}
+
+func timeOf(ts int) time.Time {
+	return baseTime.Add(time.Duration(ts)*time.Second + tsNanos[((ts%len(tsNanos))+len(tsNanos))%len(tsNanos)])
+}
+
 func tsOf(t time.Time) int {
 	d := t.Sub(baseTime)
-	if d%time.Second != 0 || d < 0 || d > 1000*time.Second {
+	if d < 0 || d > 1000*time.Second {
 		return -1
 	}
-	return int(d / time.Second)
+	ts := int(d / time.Second)
+	if !timeOf(ts).Equal(t) {
+		return -1
+	}
+	return ts
 }
 
 type runner struct {
@@ -200,7 +213,7 @@ func classify(err error) string {
 func (r *runner) sign(st Step) map[string]any {
 	ev := map[string]any{"ev": "Sign", "h": st.H, "r": st.R, "s": st.S, "bid": st.Bid, "ts": st.Ts, "crash": st.Crash,
 		"res": "err", "err": "", "sig": 0, "rts": 0, "valid": false, "leaked": false}
-	ts := baseTime.Add(time.Duration(st.Ts) * time.Second)
+	ts := timeOf(st.Ts)
 	var sig []byte
 	var rts time.Time
 	var signBytes func() []byte
